@@ -173,6 +173,7 @@ type pathCtx struct {
 	access      map[int]*accessSet
 	schedOrder  []int // completion order chosen so far (0-based creation index)
 	modelSplits int
+	uniques     map[interface{}]*value
 }
 
 type accessSet struct {
